@@ -59,7 +59,12 @@ def solve(device, p=0, s0=None, solver_options={}, prox=None, cb=None):
 
   # Don't attempt solve if input constrained to single solution.
   if (device.bounds[:, 0] == device.bounds[:, 1]).all():
-    return (device.lbounds.reshape(device.shape), None)
+    s = device.lbounds.reshape(device.shape)
+    for c in device.constraints:
+      v = float(c['fun'](s.flatten()))
+      if v < -_solver_options['ftol'] or (c['type'] == 'eq' and v > _solver_options['ftol']):
+        raise OptimizationException('The only flow within the bounds violates a %s constraint (%g)' % (c['type'], v))
+    return (s, None)
 
   # Find a (assumed) feasible starting point
   s0 = (s0 if s0 is not None else device.project(np.zeros(device.shape))).flatten()
